@@ -61,7 +61,7 @@ NoHandles == [i \in 1..NHND |-> NONE]
 NewTask(cmd, code, regs, handles, noEvict) ==
   [cmd |-> cmd, code |-> code, pc |-> 1, regs |-> regs, st |-> "live", seq |-> 0, en |-> 0,
    streams |-> NoStreams, handles |-> handles, hosting |-> NONE, aborted |-> FALSE,
-   ls |-> <<>>, yielded |-> FALSE, noEvict |-> noEvict, hostedNow |-> FALSE]
+   ls |-> <<>>, yielded |-> FALSE, noEvict |-> noEvict, hostedNow |-> FALSE, why |-> ""]
 
 \* exec: TRUE for the pseudo command that stands for the core's QueuingExecutor
 \* wreg: the command's AtomicWaker holds a waker of its host (poll_next registers, a wake takes)
@@ -216,14 +216,17 @@ Closure(S, K) ==
 \* Drop the futures of the tasks in K0 (and everything they host).
 \* notify = TRUE: the tasks in K0 themselves completed / were evicted through run_until_settled,
 \* which sets `finished` and wakes the join handles; tasks dropped wholesale are not announced.
-Remove(S, K0, notify) ==
+Remove(S, K0, notify, why) ==
   LET K  == Closure(S, K0)
       jw == IF notify
             THEN LET js == SelectSeq(S.joinreg, LAMBDA x : x.k \in K0 /\ x.w \notin K) IN
                  [i \in DOMAIN js |-> js[i].w]
             ELSE <<>>
       T1 == [t \in DOMAIN S.tasks |->
-               IF t \in K THEN [S.tasks[t] EXCEPT !.st = "gone", !.ls = <<>>] ELSE S.tasks[t]]
+               IF t \in K
+               THEN [S.tasks[t] EXCEPT !.st = "gone", !.why = IF t \in K0 THEN why ELSE "dropped",
+                                       !.ls = IF t \in K0 /\ why = "evicted" THEN @ ELSE <<>>]
+               ELSE S.tasks[t]]
       C1 == [c \in DOMAIN S.cmds |->
                IF S.cmds[c].host \in K THEN [S.cmds[c] EXCEPT !.alive = FALSE, !.out = {}] ELSE S.cmds[c]]
       R1 == [r \in DOMAIN S.reqs |->
@@ -387,11 +390,11 @@ ExecInstr(S, t) ==
          adv([S EXCEPT !.tasks[t].streams[I.s] = [rid |-> <<t[1], t[2], T.seq>>, tag |-> I.tag, val |-> Src(T, I.src)],
                        !.tasks[t].seq = @ + 1])
     [] I.op = "spawn" ->
-         LET k == <<t[1], I.script.tid>> IN
-         adv([S EXCEPT !.tasks = [@ EXCEPT ![t].handles[I.h] = k]
+         LET k == <<t[1], I.script.tid>>
+             S1 == [S EXCEPT !.tasks = [@ EXCEPT ![t].handles[I.h] = k]
                                    @@ (k :> NewTask(T.cmd, I.script.code, T.regs, T.handles, FALSE)),
-                       !.ready = @ \cup {k},
-                       !.sq[T.cmd] = IF Fifo THEN Append(@, k) ELSE @])
+                             !.ready = @ \cup {k}] IN
+         adv(IF Fifo THEN [S1 EXCEPT !.sq[T.cmd] = Append(@, k)] ELSE S1)
     [] I.op = "abort" ->
          adv([S EXCEPT !.tasks[T.handles[I.h]].aborted = TRUE])
     [] I.op = "yield" ->
@@ -414,11 +417,24 @@ HoldsLatest(S, t) ==
   \/ \E r \in DOMAIN S.reqs : S.reqs[r].owner = t /\ S.reqs[r].reg = "latest"
   \/ \E i \in DOMAIN S.joinreg : S.joinreg[i].w = t /\ S.joinreg[i].g = "latest"
 
+\* A suspended task can never make progress again: what it waits for cannot become ready.
+\* (A one-shot request whose Request object was dropped unresolved stays pending for ever; a stream
+\* ends instead, and a join handle completes when its task goes.)
+LeafDead(S, L, ls, i) ==
+  /\ L[i].k = "req" /\ ls[i].rid \in DOMAIN S.reqs
+  /\ ~S.reqs[ls[i].rid].senderAlive /\ S.reqs[ls[i].rid].chan = <<>>
+Stuck(S, t) ==
+  LET T == S.tasks[t] IN
+  /\ T.pc <= Len(T.code) /\ IsWait(T.code[T.pc]) /\ T.ls # <<>>
+  /\ LET I == T.code[T.pc] L == LeavesOf(I) IN
+     IF ModeOf(I) = "all" THEN \E i \in DOMAIN L : ~T.ls[i].done /\ LeafDead(S, L, T.ls, i)
+     ELSE \A i \in DOMAIN L : LeafDead(S, L, T.ls, i)
+
 \* the end of a poll that returned Pending: command/executor.rs run_task, after the poll
 EndPending(S, t) ==
   IF t \in S.ready THEN S                                   \* woke itself: stays ready, never evicted
   ELSE IF S.tasks[t].noEvict \/ HoldsLatest(S, t) THEN S    \* suspended
-  ELSE Remove(S, {t}, TRUE)                                 \* evicted (TaskState::Cancelled)
+  ELSE Remove(S, {t}, TRUE, "evicted")                      \* evicted (TaskState::Cancelled)
 
 ---------------------------------------------------------------------------
 (* The state as a record, so the semantic operators above can be pure *)
@@ -523,7 +539,7 @@ ReapTask(t) ==
   /\ tasks[t].aborted
   /\ ~Blocked(St, t)
   /\ Eligible(t)
-  /\ Put(Remove(St, {t}, TRUE))
+  /\ Put(Remove(St, {t}, TRUE, "aborted"))
   /\ UNCHANGED run
 
 Step ==
@@ -532,13 +548,13 @@ Step ==
      CASE r.oc = "cont"     -> Put(r.S) /\ UNCHANGED run
        [] r.oc = "host"     -> Put(r.S) /\ run' = NONE
        [] r.oc = "pending"  -> Put(EndPending(r.S, run)) /\ run' = NONE
-       [] r.oc = "finished" -> Put(Remove(r.S, {run}, TRUE)) /\ run' = NONE
+       [] r.oc = "finished" -> Put(Remove(r.S, {run}, TRUE, "finished")) /\ run' = NONE
 
 \* run_until_settled on an aborted command: self.tasks.clear()
 ReapCmd(c) ==
   /\ run = NONE
   /\ CanReap(St, c)
-  /\ Put(Remove(St, LiveIn(St, c), FALSE))
+  /\ Put(Remove(St, LiveIn(St, c), FALSE, "cmd_aborted"))
   /\ UNCHANGED run
 
 MapItem(i, fe, fv) ==
@@ -590,33 +606,54 @@ ResolveResult(r) ==
     [] reqs[r].kind = "once"  -> "ok"
     [] reqs[r].kind = "many"  -> IF reqs[r].recvAlive THEN "ok" ELSE "finished"
 
-\* sending a value / dropping the last sender wakes whatever waker the channel holds
-WakeOwner(S, r) ==
-  IF S.reqs[r].reg = "none" THEN S
-  ELSE Wake([S EXCEPT !.reqs[r].reg = "none"], <<S.reqs[r].owner>>)
+\* sending a value / dropping the last sender wakes whatever waker the channel holds.
+\* A waker that outlived its task carries the slab key of that task; the slot may since have been
+\* given to another task of the same command (or executor), which is then polled spuriously.
+\* Which task (if any) is unspecified: `al` is NONE or one live task of a command in which the walk
+\* up the chain of parent wakers passed a task that is gone.
+RECURSIVE GoneLevels(_, _)
+GoneLevels(S, t) ==
+  LET c  == S.tasks[t].cmd
+      h  == S.cmds[c].host
+      me == IF S.tasks[t].st = "gone" THEN {c} ELSE {} IN
+  IF S.cmds[c].wreg /\ h # ROOT THEN me \cup GoneLevels(S, h) ELSE me
 
-Resolve(r, v) ==
+AliasCands(S, r) ==
+  IF S.reqs[r].reg = "none" THEN {}
+  ELSE {u \in Live(S) : S.tasks[u].cmd \in GoneLevels(S, S.reqs[r].owner)}
+
+WakeOwner(S, r, al) ==
+  IF S.reqs[r].reg = "none" THEN S
+  ELSE LET S1 == Wake([S EXCEPT !.reqs[r].reg = "none"], <<S.reqs[r].owner>>) IN
+       IF al = NONE THEN S1 ELSE Enq1(S1, al)
+
+Resolve(r, v, al) ==
   /\ run = NONE
   /\ reqs[r].held
+  /\ al = NONE \/ al \in AliasCands(St, r)
   /\ LET q == reqs[r] IN
-     CASE q.kind = "never" -> UNCHANGED <<cmds, tasks, ready, reqs, joinreg, rq, sq>>
+     CASE q.kind = "never" -> al = NONE /\ UNCHANGED <<cmds, tasks, ready, reqs, joinreg, rq, sq>>
        [] q.kind = "once" ->
             \* FnOnce consumed: value sent if the receiver is still there, then the sender is dropped
             Put(WakeOwner([St EXCEPT !.reqs[r] = [q EXCEPT !.kind = "never", !.senderAlive = FALSE,
                                                            !.nres = @ + 1,
-                                                           !.chan = IF q.recvAlive THEN <<v>> ELSE <<>>]], r))
+                                                           !.chan = IF q.recvAlive THEN <<v>> ELSE <<>>]], r, al))
        [] q.kind = "many" ->
             IF q.recvAlive
-            THEN Put(WakeOwner([St EXCEPT !.reqs[r].chan = Append(@, v), !.reqs[r].nres = @ + 1], r))
-            ELSE UNCHANGED <<cmds, tasks, ready, reqs, joinreg, rq, sq>>
+            THEN Put(WakeOwner([St EXCEPT !.reqs[r].chan = Append(@, v), !.reqs[r].nres = @ + 1], r, al))
+            ELSE al = NONE /\ UNCHANGED <<cmds, tasks, ready, reqs, joinreg, rq, sq>>
   /\ UNCHANGED run
 
+\* the possible spurious-wake choices for a shell action on request r
+Aliases(r) == {NONE} \cup AliasCands(St, r)
+
 \* the shell drops a Request it holds (typed API only)
-DropReq(r) ==
+DropReq(r, al) ==
   /\ run = NONE
   /\ reqs[r].held
+  /\ al = NONE \/ al \in AliasCands(St, r)
   /\ Put(WakeOwner([St EXCEPT !.reqs[r].held = FALSE, !.reqs[r].senderAlive = FALSE,
-                              !.reqs[r].kind = "never"], r))
+                              !.reqs[r].kind = "never"], r, al))
   /\ UNCHANGED run
 
 \* AbortHandle::abort: sets the flag, wakes nobody.  A command that a combinator holds but has not
